@@ -106,6 +106,27 @@ CHECKS = {
         "For '?' rows only the involution and mirrored-position laws are demanded (DESIGN 3-C14).",
         "3-C14",
     ),
+    "C15": (
+        "fault_enumeration",
+        "process-level controlled scheduler + crash injector over real forked auto_load processes (yield points: sys.monitoring LINE events of the cache functions, raw FileIO write/read/close = flush boundaries, os.stat/replace/unlink); history driver on a logical mtime clock; oracle = reference index of the FASTA's current bytes or a loud failure",
+        "Crash points: the indexing process is killed at EVERY yield point of each scenario (cold, stale, equal mtime, .fai or .agp deleted; 2-record and 800-record files with interior flush boundaries) and a fresh load is judged per distinct on-disk state. Interleavings: every preemption position for 2 processes/1 preemption, 3 processes/1 preemption, 3 processes/2 preemptions at file operations (quick) plus 2 processes/2 preemptions (thorough) and random-priority schedules. Histories: all sequences up to length 3 (quick) / 4 (thorough) over the property's alphabet plus random ones to length 10.",
+        "Process crashes (completed writes persist, user-space buffers lost, no torn write); FASTA not edited while being indexed; bounds as stated; scheduling granularity = statements of tola/fasta/index.py cache functions + raw file operations.",
+        "3-C15",
+    ),
+    "C16": (
+        "exploration",
+        "audit hook (sys.addaudithook: open flags / rename / remove / truncate on pre-existing output paths) around the real CLI in process + post-run bytes/inode/mtime comparison, exit status and error text; strace on the console entry point as independent observer; --clobber leg vs reference run",
+        "For each generated case the output file set is fixed by a reference run; every non-empty subset (<=6 files) or singletons+full+sampled subsets is pre-created with sentinels and the CLI run with --no-clobber under the monitors, over FASTA/AGP/TPF output, log on/off, single- and multi-assembly designs.",
+        "The FASTA index cache is not an output file; 'completely rewritten' = byte equality with the reference run.",
+        "3-C16",
+    ),
+    "C17": (
+        "exploration",
+        "differential observer: byte equality of all output files between a reference run and runs differing in one axis (PYTHONHASHSEED subprocesses, cwd, stream buffer, cache cold/warm, in-process history, fresh interpreter); FASTA/AGP/TPF input leg; asm-format; the 12 specimens",
+        "Each generated case (tag-rich designs incl. two haplotypes) and each specimen is run along every axis and all files compared byte for byte.",
+        "Same output directory for all runs of a case, so absolute paths in logs coincide by construction.",
+        "3-C17",
+    ),
     "C18": (
         "exploration",
         "shadow-state monitor on every OverlapResult born from a real lookup; invariant re-derived from rows vs source scaffold after each mutating method (icontract post-conditions + snapshots for the prediction law); direct random op sequences + in-situ remap",
@@ -159,6 +180,7 @@ def main():
         for pid in ids
         if pid not in CHECKS
     ]
+    src_commits = []
     src_commits = []
     man = {
         "version": 1,
